@@ -162,7 +162,37 @@ def work(arg):
     return u
 
 
+def file_case(enc):
+    """the grammar as a FILE in another encoding: the grammar model holds the text as written"""
+    import os
+
+    from mc import core
+    from textx import metamodel_for_language
+
+    fn = os.path.join(core.rundir(), "c24-%d-%s.tx" % (os.getpid(), enc))
+    with open(fn, "w", encoding=enc) as f:
+        f.write("A: 'caf\u00e9 \u00fc' x=INT;")
+    try:
+        gm = metamodel_for_language("textx").grammar_model_from_file(fn, encoding=enc)
+        lit = gm.rules[0].body.sequences[0].repeatable_exprs[0].expr.simple_match.match
+        return lit == "caf\u00e9 \u00fc", {"file_encoding": enc, "literal_in_grammar_model": lit}
+    except Exception as e:
+        return False, {"file_encoding": enc, "observed": "%s: %s" % (type(e).__name__, str(e)[:100])}
+
+
+def work_file(arg):
+    u = Unit()
+    for enc in arg:
+        ok, obs = file_case(enc)
+        u.case(["grammar-file", enc], nontrivial=True, sample=obs)
+        u.count("grammar file encodings")
+        if not ok:
+            u.fail(["grammar-file", enc], {"file_encoding": enc}, sig="grammar file encoding", what=str(obs)[:300])
+    return u
+
+
 def run(ctx):
+    ctx.pmap(work_file, [["utf-8", "latin-1", "utf-16"]])
     items = list(catalogue())
     single = [x for x in items if not x[0].startswith("pair-")]
     pairs = [x for x in items if x[0].startswith("pair-")]
@@ -177,5 +207,7 @@ def run(ctx):
 
 
 def replay(p):
+    if "file_encoding" in p:
+        return file_case(p["file_encoding"])
     a, b = verdicts(p["text"])
     return a == b, {"text": p["text"], "compiler_accepts": a, "textx_tx_accepts": b}
